@@ -12,6 +12,7 @@ import (
 	"strings"
 	"sync"
 	"time"
+	"unicode/utf8"
 )
 
 // Mutant is a single-edit variant of today's source used to test the checker
@@ -143,6 +144,9 @@ func runOneMutant(exe, vdir, repo string, m Mutant) mutantResult {
 
 func firstN(s string, n int) string {
 	if len(s) > n {
+		for n > 0 && !utf8.RuneStart(s[n]) {
+			n--
+		}
 		return s[:n] + "…"
 	}
 	return s
